@@ -663,7 +663,7 @@ pub fn run_c07(a: &Args, shared: &SharedReport) {
     {
         let mut r = shared.lock().unwrap();
         r.rule = "(i) every network content within the bound per kind: send/len/iter_all/iter_deliverable vs the reference multiset, and every deliver/drop step through next_state; (ii) every path to the depth bound of the zoo systems per kind x lossiness with a ghost ledger per envelope; non-trivial = network holds >= 2 copies / path has >= 2 steps".into();
-        r.bounds = json!({"network_contents": if th {"<=3 envelopes from a 5-envelope universe"} else {"<=3 envelopes from a 5-envelope universe (views), <=2 (steps)"}, "trace_depth": if th {9} else {7}, "kinds": ["ordered","nondup","dup"], "lossy": [true,false]});
+        r.bounds = json!({"network_contents": "<=3 envelopes from a 5-envelope universe (views and steps)", "trace_depth": if th {12} else {10}, "kinds": ["ordered","nondup","dup"], "lossy": [true,false]});
     }
     // (i) views on every constructible network
     if a.shard == 0 {
@@ -684,7 +684,7 @@ pub fn run_c07(a: &Args, shared: &SharedReport) {
     for kind in [NetKind::Ordered, NetKind::NonDup, NetKind::Dup] {
         for lossy in [true, false] {
             let cfg = SysCfg { kind, lossy, max_crashes: 0, hist: HistMode::Off };
-            for net in networks(kind, if th { 3 } else { 2 }) {
+            for net in networks(kind, 3) {
                 idx += 1;
                 if idx % a.nshards != a.shard {
                     continue;
@@ -713,7 +713,7 @@ pub fn run_c07(a: &Args, shared: &SharedReport) {
         }
     }
     // (ii) all paths with the ghost ledger
-    let depth = if th { 9 } else { 7 };
+    let depth = if th { 12 } else { 10 };
     let mut idx = 0u64;
     for z in zoo() {
         for kind in [NetKind::Ordered, NetKind::NonDup, NetKind::Dup] {
